@@ -124,16 +124,19 @@ Theorem ffi_agrees_karmarkar_karp_complete : forall rust p0 ws tol s rest W,
 Proof. exact agrees_ckk. Qed.
 Print Assumptions ffi_agrees_karmarkar_karp_complete.
 
-(* rcb, rib: LEN_MISMATCH first, then dimension 2/3 -> the algorithm, any other -> BAD_DIMENSION *)
+(* rcb, rib: LEN_MISMATCH first, then dimension 2/3 -> the algorithm, any other -> BAD_DIMENSION.
+   [checks_points e] is computed from the generated table: does the entry point answer BAD_TYPE (right after the
+   length check) for points announced with another Type tag than double?  It does not at present — the tag of
+   the points is never read (finding candidate, docs/C17.md) — and the statements hold for either shape. *)
 Theorem ffi_agrees_rcb : forall rust p0 dim pts ws iter tol s rest,
   take_slice (dlen pts) p0 = Some (s, rest) ->
-  coupe_rcb rust p0 dim pts ws iter tol = geo_expected rust p0 dim pts ws iter tol s rest.
+  coupe_rcb rust p0 dim pts ws iter tol = geo_expected (checks_points ffi_rcb) rust p0 dim pts ws iter tol s rest.
 Proof. exact agrees_rcb. Qed.
 Print Assumptions ffi_agrees_rcb.
 
 Theorem ffi_agrees_rib : forall rust p0 dim pts ws iter tol s rest,
   take_slice (dlen pts) p0 = Some (s, rest) ->
-  coupe_rib rust p0 dim pts ws iter tol = geo_expected rust p0 dim pts ws iter tol s rest.
+  coupe_rib rust p0 dim pts ws iter tol = geo_expected (checks_points ffi_rib) rust p0 dim pts ws iter tol s rest.
 Proof. exact agrees_rib. Qed.
 Print Assumptions ffi_agrees_rib.
 
@@ -141,7 +144,8 @@ Print Assumptions ffi_agrees_rib.
    weights; every error of the algorithm becomes NOT_FOUND *)
 Theorem ffi_agrees_hilbert : forall rust p0 pts ws part_count order s rest,
   take_slice (dlen pts) p0 = Some (s, rest) ->
-  coupe_hilbert rust p0 pts ws part_count order = hilbert_expected rust p0 pts ws part_count order s rest.
+  coupe_hilbert rust p0 pts ws part_count order
+  = hilbert_expected (checks_points ffi_hilbert) rust p0 pts ws part_count order s rest.
 Proof. exact agrees_hilbert. Qed.
 Print Assumptions ffi_agrees_hilbert.
 
@@ -175,13 +179,13 @@ Theorem ffi_panic_contained :
      denote_scalars (tag_numty (dtype ws)) ws = Some W -> rust (tag_numty (dtype ws)) W [Some k] s = Panic site ->
      coupe_karmarkar_karp_complete rust p0 ws k = Returns CCrash None)
   /\ (forall rust p0 dim pts ws iter tol s rest P W site, take_slice (dlen pts) p0 = Some (s, rest) ->
-     dlen pts = dlen ws -> existsb (N.eqb dim) [2; 3]%N = true ->
+     dlen pts = dlen ws -> dtype pts = TDouble -> existsb (N.eqb dim) [2; 3]%N = true ->
      denote_points (N.to_nat dim) pts = Some P -> denote_scalars (tag_numty (dtype ws)) ws = Some W ->
      rust (N.to_nat dim) P (tag_numty (dtype ws)) W [Some iter; Some tol] s = Panic site ->
      coupe_rcb rust p0 dim pts ws iter tol = Returns CCrash None
      /\ coupe_rib rust p0 dim pts ws iter tol = Returns CCrash None)
   /\ (forall rust p0 pts ws k o s rest P W site, take_slice (dlen pts) p0 = Some (s, rest) ->
-     dlen pts = dlen ws -> dtype ws = TDouble ->
+     dlen pts = dlen ws -> dtype pts = TDouble -> dtype ws = TDouble ->
      denote_points 2 pts = Some P -> denote_scalars F64 ws = Some W ->
      rust 2 P F64 W [Some k; Some o] s = Panic site ->
      coupe_hilbert rust p0 pts ws k o = Returns CCrash None)
@@ -211,19 +215,19 @@ Theorem ffi_repr_indep_karmarkar_karp_complete : forall rust p0 w1 w2 k,
   coupe_karmarkar_karp_complete rust p0 w1 k = coupe_karmarkar_karp_complete rust p0 w2 k.
 Proof. exact repr_indep_ckk. Qed.
 Theorem ffi_repr_indep_rcb : forall rust p0 dim q1 q2 w1 w2 iter tol,
-  dlen q1 = dlen q2 -> (forall d, denote_points d q1 = denote_points d q2) ->
+  dlen q1 = dlen q2 -> dtype q1 = dtype q2 -> (forall d, denote_points d q1 = denote_points d q2) ->
   dlen w1 = dlen w2 -> dtype w1 = dtype w2 ->
   denote_scalars (tag_numty (dtype w1)) w1 = denote_scalars (tag_numty (dtype w1)) w2 ->
   coupe_rcb rust p0 dim q1 w1 iter tol = coupe_rcb rust p0 dim q2 w2 iter tol.
 Proof. exact repr_indep_rcb. Qed.
 Theorem ffi_repr_indep_rib : forall rust p0 dim q1 q2 w1 w2 iter tol,
-  dlen q1 = dlen q2 -> (forall d, denote_points d q1 = denote_points d q2) ->
+  dlen q1 = dlen q2 -> dtype q1 = dtype q2 -> (forall d, denote_points d q1 = denote_points d q2) ->
   dlen w1 = dlen w2 -> dtype w1 = dtype w2 ->
   denote_scalars (tag_numty (dtype w1)) w1 = denote_scalars (tag_numty (dtype w1)) w2 ->
   coupe_rib rust p0 dim q1 w1 iter tol = coupe_rib rust p0 dim q2 w2 iter tol.
 Proof. exact repr_indep_rib. Qed.
 Theorem ffi_repr_indep_hilbert : forall rust p0 q1 q2 w1 w2 k o,
-  dlen q1 = dlen q2 -> denote_points 2 q1 = denote_points 2 q2 ->
+  dlen q1 = dlen q2 -> dtype q1 = dtype q2 -> denote_points 2 q1 = denote_points 2 q2 ->
   dlen w1 = dlen w2 -> dtype w1 = dtype w2 ->
   denote_scalars F64 w1 = denote_scalars F64 w2 ->
   coupe_hilbert rust p0 q1 w1 k o = coupe_hilbert rust p0 q2 w2 k o.
